@@ -131,6 +131,10 @@ impl Lexicon {
             let (result, nin, nout) = rdr.read_field(bytes, &mut output);
             let record_end = match result {
                 ReadFieldResult::InputEmpty => {
+                    // Only record terminators (trailing blank lines) remained.
+                    if field_cnt == 0 && bytes[..nin].iter().all(|&b| b == b'\n' || b == b'\r') {
+                        break;
+                    }
                     features_len += nin + 1;
                     record_end_pos += nin;
                     true
@@ -158,6 +162,10 @@ impl Lexicon {
                         _ => {
                             features_len += nin;
                         }
+                    }
+                    // At the end of input, the last field is flushed without consuming a terminator.
+                    if record_end && nin == 0 && field_cnt >= 4 {
+                        features_len += 1;
                     }
                     record_end_pos += nin;
                     record_end
